@@ -110,7 +110,7 @@ void scalar_drive(const char* type, const char* opname, const std::vector<T>& va
         if (nonneg_only && std::is_signed<T>::value && a < 0) continue;
         uint32_t cls = ucls((uint64_t)a, bits);
         volatile T va = a;   // run-time operand
-        T got = 0; bool ok = false;
+        T got = 0; volatile bool ok = false;
         VK_GUARDED(cls, ("a=" + hex(a)), { got = (T)f(va); ok = true; });
         c.cases++; c.cls_add(cls);
         if (c.cases <= 2) add_sample(std::string(opname) + "(" + hex(a) + ")");
